@@ -179,6 +179,21 @@ def run_shard(spec, ctx):
                 ctx.violation("compound_not_si", {"s": s}, rep)
         except Exception as e:
             ctx.violation("recognition_raises:%s" % type(e).__name__, {"s": s, "err": repr(e)}, rep)
+        # a product / quotient is not a scalable version of one of its own factors (nor of anything atomic)
+        atom = rng.choice(parts + [mk(rng.choice(plist), rng.choice(UNITS), rng.choice(POW))])
+        for a, b in ((s, atom), (atom, s)):
+            ctx.count("compound_vs_atomic_pairs")
+            try:
+                if units.scalable(a, b):
+                    ctx.violation("compound_scalable_with_atomic:%s" % ("first_factor" if atom == parts[0] else "other"), {"a": a, "b": b}, rep)
+                    continue
+            except Exception:
+                continue
+            try:
+                r = units.scaling(a, b)
+                ctx.violation("compound_scaling_not_refused", {"a": a, "b": b, "got": r}, rep)
+            except Exception:
+                pass
     alpha = [" ", "m", "u", "µ", "μ", "V", "s", "k", "/", "*", "^", "1", "2"]
     for _ in range(n * 2):       # sanitiser idempotence
         s = "".join(rng.choice(alpha) for _ in range(rng.randint(0, 7)))
